@@ -86,6 +86,8 @@ Inductive eop :=
 | ECheckLedger (key : Z) (hash : Z)            (* balance + stored transactions *)
 | ECheckBook (key : Z) (hash : Z)              (* promises *)
 | ECheckKept (key : Z) (hash : Z) (mid : bool) (* kept promise + mid-trip flag *)
+| ECheckHist (key : Z) (hash : Z) (mid : bool) (* stored trip history (all slots, markers, oldest change) + mid-trip flag *)
+| ECheckFlights (key : Z) (hash : Z)           (* flight data and order of the stored trip history, markers projected away *)
 | ECheckAdmin (hash : Z)
 | ECheckTable (hash : Z)
 | ERestart
@@ -177,6 +179,12 @@ Definition e_step (s : rstate) (o : eop) : rstate * bool :=
       match tget (e_table e) k with
       | Some t => (s, (hash_kept t =? hash) && Bool.eqb (mid_trip (t_hist t)) mid)
       | None => (s, false) end
+  | ECheckHist k hash mid =>
+      match tget (e_table e) k with
+      | Some t => (s, (hash_hist (t_hist t) =? hash) && Bool.eqb (mid_trip (t_hist t)) mid)
+      | None => (s, false) end
+  | ECheckFlights k hash =>
+      match tget (e_table e) k with Some t => (s, hash_hist_noet (t_hist t) =? hash) | None => (s, false) end
   | ECheckAdmin hash => (s, hash_admin (e_admin e) =? hash)
   | ECheckTable hash => (s, hash_table (e_table e) =? hash)
   | ERestart => (mkR0 (restart (N:=NumF) to_bits of_bits e) (r_slots s) (r_saved s), true)   (* really encodes and decodes *)
